@@ -58,6 +58,9 @@ STRENGTHENED = {
     "C20-agent5-1": "would have been MISSED (at most 1000 elements, random unions); caught after union chains of 1200-4000 elements were added",
     "C20-agent5-2": "would have been MISSED (results were only read); caught after the `consume_components` operation (the caller empties what get_components / component_sizes returned) was added",
     "C18-agent5-1": "MISSED at first (lattice and dyadic coordinates give spreads of exactly 0 or far above 1e-6); caught after nearly coincident geometry was added (lattice points moved by 2^-10..2^-24; customers strung along a ray with hair-width offsets and a multi-vehicle customer at the far end)",
+    "C17-agent5-1": "MISSED at first, and marginal now: needs the fixed-pool proof path (pricing that offers nothing more), added in this round; 0-1 hits per quick run (caught at seeds 0 and 1, not at 2), 2 hits in a 200 s thorough run - counted as a blind spot of the *quick* tier",
+    "C17-agent5-2": "MISSED at first at seed 0 (caught at seeds 1-3 with 2-9 hits); robust (3-11 hits at seeds 0-3) after non-best pricing peers got more weight and jumbo columns covering all/half of the demand were added",
+    "C17-agent5-3": "would have been MISSED (my pricing peers re-offer pooled columns inside branched nodes, which makes those nodes inexact and the status FEASIBLE); caught after the `fixed_pool` peer and the rich fixed-pool slices were added.  The first evaluation of this round's C17 changes was void: it reported the two genuine defects of 10.3 (b5a00a1, a9b5bec) on the unchanged tree instead; they were repaired first and the changes re-evaluated",
     "C17-agent-3": "MISSED at first (only integer roll widths were generated); caught after fractional roll widths were added",
 }
 WHAT = {}
@@ -94,12 +97,12 @@ def main():
         rows.append(f"| {name} | {m['property']} | {desc} | {conf} | {m.get('verdict')} ({m.get('check_wall_s')} s) | {cls} | {STRENGTHENED.get(name, '')} |")
     n_all = len(rows) - 2
     n_missed = sum(1 for k, v in STRENGTHENED.items() if "MISSED" in v and os.path.exists(os.path.join(VERIF, "seeded", k)))
-    n_still = sum(1 for k, v in STRENGTHENED.items() if v.startswith("MISSED, and still missed:") and os.path.exists(os.path.join(VERIF, "seeded", k)))
+    n_still = sum(1 for k, v in STRENGTHENED.items() if (v.startswith("MISSED, and still missed:") or v.startswith("MISSED at first, and marginal now:")) and os.path.exists(os.path.join(VERIF, "seeded", k)))
     rows.append("")
     rows.append(f"Totals: {n_all} confirmed seeded changes; {n_all - n_missed} were caught by the quick check as it stood when the change "
                 f"arrived, {n_missed} were missed (or would have been) and led to the strengthening described in the last column; "
                 f"{n_all - n_still} are caught now and are re-run by `./simcheck selftest sensitivity`"
-                f"{'' if not n_still else f'; {n_still} is still missed (see its note)'}.")
+                f"{'' if not n_still else f'; {n_still} are still missed or marginal at the quick tier (see their notes)'}.")
     table = "\n".join(rows)
     p = os.path.join(VERIF, "DESIGN.md")
     s = open(p).read()
